@@ -1,5 +1,5 @@
-From Coq Require Import List Arith ZArith.
-From AL Require Import C08.Model C08.Spec C08.Proofs.
+From Coq Require Import List Arith ZArith Lia.
+From AL Require Import C08.Model C08.Spec C08.Proofs C08.Check C08.Proofs_Hist C08.Proofs_Check.
 Import ListNotations.
 
 (* The generator model equals the closed form, for every list, size >= 1, hop >= 1. *)
@@ -59,3 +59,47 @@ Example C08_blocks_spec_example :
   blocks_spec 3 2 0%nat [1; 2; 3; 4; 5; 6]%nat = [[1; 2; 3]; [3; 4; 5]; [5; 6; 0]]%nat.
 Proof. vm_compute. reflexivity. Qed.
 Print Assumptions C08_blocks_spec_example.
+
+
+(* Round 2.  The generator as a resumable object over a LIVE list (deque, idx, list-iterator position): at every
+   next() it gives block k of the closed form for what the list holds at that moment (k = complete blocks so far),
+   until the end of the data is reached (padded tail or nothing), then nothing for ever - whatever the owner of the
+   list did in between to the items not handed over yet (hist_ok). *)
+Theorem C08_blocks_live_history : forall (A : Type) (size hop : nat) (pad : A) (ops : list (hop_t A)) (buf : list A),
+  (1 <= size)%nat -> (1 <= hop)%nat ->
+  hist_ok size hop pad ops buf 0 false ->
+  gen_run size hop pad ops buf g_init = hist_spec size hop pad ops buf 0 false.
+Proof. exact blocks_live_history. Qed.
+Print Assumptions C08_blocks_live_history.
+
+(* the boolean validity test run on every generated history implies hist_ok *)
+Theorem C08_hist_valid_model_eq_spec : forall (size hop : nat) (pad : pyv) (ops : list (hop_t pyv)) (buf : list pyv),
+  (1 <= size)%nat -> (1 <= hop)%nat ->
+  hist_valid size hop pad ops buf 0 false = true ->
+  gen_run size hop pad ops buf g_init = hist_spec size hop pad ops buf 0 false.
+Proof. exact hist_valid_model_eq_spec. Qed.
+Print Assumptions C08_hist_valid_model_eq_spec.
+
+(* Non-vacuity: size 2, hop 2 on [0;1;2]; one block is taken, the owner appends 3 4 5, the rest is taken:
+   [2;3] and [4;5], not a padded [2;pad] (hist_ok holds, and the model gives exactly this). *)
+Example C08_live_history_example :
+  let ops := [HNext; HBuf [0; 1; 2; 3; 4; 5]; HNext; HNext; HNext; HBuf [0; 1; 2; 3; 4; 5; 6]; HNext]%nat in
+  hist_ok 2 2 9%nat ops [0; 1; 2]%nat 0 false /\
+  gen_run 2 2 9%nat ops [0; 1; 2]%nat g_init = [Some [0; 1]; Some [2; 3]; Some [4; 5]; None; None]%nat /\
+  gen_run 2 2 9%nat [HNext; HNext; HBuf [0; 1; 2; 3]; HNext]%nat [0; 1; 2]%nat g_init
+    = [Some [0; 1]; Some [2; 9]; None]%nat.
+Proof. vm_compute. repeat split; try (right; split; [reflexivity|lia]). Qed.
+Print Assumptions C08_live_history_example.
+
+(* zero_pad over a live list, any change of the list allowed: item j is the left pad, then what the list holds at
+   position j-left when it is asked for, then (once the list was found to end) the right pads. *)
+Theorem C08_zero_pad_live_history : forall (A : Type) (left right : nat) (zero : A) (ops : list (hop_t A)) (buf : list A),
+  zp_run left right zero ops buf z_init = zhist_spec left right zero ops buf 0 None.
+Proof. exact zero_pad_live_history. Qed.
+Print Assumptions C08_zero_pad_live_history.
+
+Example C08_zero_pad_live_example :
+  zhist_spec 1 1 0%nat [HNext; HNext; HBuf [7; 8]; HNext; HNext; HBuf [7; 8; 9]; HNext; HNext]%nat [7]%nat 0 None
+  = [Some 0; Some 7; Some 8; Some 0; None; None]%nat.
+Proof. vm_compute. reflexivity. Qed.
+Print Assumptions C08_zero_pad_live_example.
